@@ -129,6 +129,74 @@ func TestC08Many(t *testing.T) { pbt.Check(t, specMany) }
 // wrapT is the Case.T of the 2^32 unit: Ops[0] is repeated 2^32 + 2^12 times on an int grid.
 const wrapT = "wrap32"
 
+// wrapBlock makes the calls number lo..hi-1 of one kind in a tight loop. After every call the cell written (or
+// read) is read back with Get; with full set, the whole grid is compared with the model after every call.
+// It returns the number of the failing call and a message, or -1.
+func wrapBlock(k int, a arrays.Array2D[int], cells []int, w, h, x1, x2, y1 int, lo, hi int, full bool) (int, string) {
+	m := &model[int]{w: w, h: h, cells: cells}
+	d := &desc[int]{eq: func(a, b int) bool { return a == b }}
+	at := y1*w + x1
+	span := x2 - x1 + 1
+	for i := lo; i < hi; i++ {
+		v := i + 1
+		switch k {
+		case OpSet:
+			a.Set(x1, y1, v)
+			cells[at] = v
+			if got := a.Get(x1, y1); got != v {
+				return i, fmt.Sprintf("Set(%d,%d,%d), then Get(%d,%d) = %d", x1, y1, v, x1, y1, got)
+			}
+		case OpGet:
+			if i&0xfff == 0 {
+				a.Set(x1, y1, v)
+				cells[at] = v
+			}
+			if got := a.Get(x1, y1); got != cells[at] {
+				return i, fmt.Sprintf("Get(%d,%d) = %d, want %d", x1, y1, got, cells[at])
+			}
+		case OpFill:
+			a.Fill(x1, y1, x1, y1, v)
+			cells[at] = v
+			if got := a.Get(x1, y1); got != v {
+				return i, fmt.Sprintf("Fill(%d,%d,%d,%d,%d), then Get(%d,%d) = %d", x1, y1, x1, y1, v, x1, y1, got)
+			}
+		case OpRow:
+			win := a.Row(y1)
+			if len(win) != w {
+				return i, fmt.Sprintf("Row(%d) has length %d", y1, len(win))
+			}
+			win[x1] = v
+			cells[at] = v
+			if got := a.Get(x1, y1); got != v {
+				return i, fmt.Sprintf("Row(%d)[%d] = %d, then Get(%d,%d) = %d", y1, x1, v, x1, y1, got)
+			}
+		case OpRowSpan:
+			win := a.RowSpan(x1, x2, y1)
+			if len(win) != span {
+				return i, fmt.Sprintf("RowSpan(%d,%d,%d) has length %d", x1, x2, y1, len(win))
+			}
+			win[span-1] = v
+			cells[at+span-1] = v
+			if got := a.Get(x2, y1); got != v {
+				return i, fmt.Sprintf("RowSpan(%d,%d,%d)[%d] = %d, then Get(%d,%d) = %d", x1, x2, y1, span-1, v, x2, y1, got)
+			}
+		default:
+			if a.Width() != w || a.Height() != h {
+				return i, fmt.Sprintf("Width,Height = %d,%d", a.Width(), a.Height())
+			}
+		}
+		if full {
+			if msg := diff(a, m, d); msg != "" {
+				return i, msg
+			}
+		}
+	}
+	if msg := diff(a, m, d); msg != "" {
+		return hi - 1, "(whole grid compared after this call, the previous comparison was at most 65536 calls earlier) " + msg
+	}
+	return -1, ""
+}
+
 func runWrap32(c Case) pbt.Outcome {
 	out := pbt.Outcome{}
 	w, h := c.W, c.H
@@ -143,115 +211,39 @@ func runWrap32(c Case) pbt.Outcome {
 	op := c.Ops[0]
 	k := mod(op.K, int(nOps))
 	out.Labels = append(out.Labels, "type:int", "wrap32:"+opName[k])
-	d := &desc[int]{eq: func(a, b int) bool { return a == b }}
 	a := arrays.New2D[int](w, h)
-	m := &model[int]{w: w, h: h, cells: make([]int, w*h)}
-	x1, y1, x2, y2 := mod(op.X1, w), mod(op.Y1, h), mod(op.X2, w), mod(op.Y2, h)
+	cells := make([]int, w*h)
+	x1, x2, y1 := mod(op.X1, w), mod(op.X2, w), mod(op.Y1, h)
 	if x1 > x2 {
 		x1, x2 = x2, x1
 	}
-	ox, oy := (x1+1)%w, (y1+1)%h // another cell than (x1,y1), in another row and column (it is compared with the model, so it may lie in a written region)
-	msg := ""
-	i := 0
+	// the whole grid is compared after EVERY call in the blocks of 2^16 calls that contain 2^16, 2^31, 2^32 and the end,
+	// otherwise after every 2^16 calls
+	const blk = 1 << 16
+	special := map[int]bool{}
+	for _, at := range []int{1 << 16, 1 << 31, 1 << 32, total} {
+		special[(at-1)/blk], special[at/blk], special[(at+64)/blk] = true, true, true
+	}
+	bad, msg := -1, ""
+	done := 0
 	p := try(func() {
-		for i = 0; i < total; i++ {
-			v := i + 1
-			switch k {
-			case OpSet:
-				a.Set(x1, y1, v)
-				m.cells[y1*w+x1] = v
-				if got := a.Get(x1, y1); got != v {
-					msg = fmt.Sprintf("Set(%d,%d,%d), then Get(%d,%d) = %d", x1, y1, v, x1, y1, got)
-					return
-				}
-			case OpGet:
-				if i&0xfffff == 0 {
-					a.Set(x1, y1, v)
-					m.cells[y1*w+x1] = v
-				}
-				if got := a.Get(x1, y1); got != m.cells[y1*w+x1] {
-					msg = fmt.Sprintf("Get(%d,%d) = %d, want %d", x1, y1, got, m.cells[y1*w+x1])
-					return
-				}
-			case OpFill:
-				a.Fill(x2, y1, x1, y2, v)
-				ya, yb := y1, y2
-				if ya > yb {
-					ya, yb = yb, ya
-				}
-				for y := ya; y <= yb; y++ {
-					for x := x1; x <= x2; x++ {
-						m.cells[y*w+x] = v
-					}
-				}
-				if g1, g2 := a.Get(x1, ya), a.Get(x2, yb); g1 != v || g2 != v {
-					msg = fmt.Sprintf("Fill(%d,%d,%d,%d,%d), then Get at the corners = %d, %d", x2, y1, x1, y2, v, g1, g2)
-					return
-				}
-			case OpRow:
-				win := a.Row(y1)
-				if len(win) != w {
-					msg = fmt.Sprintf("Row(%d) has length %d", y1, len(win))
-					return
-				}
-				win[i%w] = v
-				m.cells[y1*w+i%w] = v
-				if got := a.Get(i%w, y1); got != v {
-					msg = fmt.Sprintf("Row(%d)[%d] = %d, then Get(%d,%d) = %d", y1, i%w, v, i%w, y1, got)
-					return
-				}
-			case OpRowSpan:
-				win := a.RowSpan(x1, x2, y1)
-				if len(win) != x2-x1+1 {
-					msg = fmt.Sprintf("RowSpan(%d,%d,%d) has length %d", x1, x2, y1, len(win))
-					return
-				}
-				j := i % len(win)
-				win[j] = v
-				m.cells[y1*w+x1+j] = v
-				if got := a.Get(x1+j, y1); got != v {
-					msg = fmt.Sprintf("RowSpan(%d,%d,%d)[%d] = %d, then Get(%d,%d) = %d", x1, x2, y1, j, v, x1+j, y1, got)
-					return
-				}
-			case OpClone:
-				cl := a.Clone()
-				cl.Set(x1, y1, v)
-				if got := a.Get(x1, y1); got != m.cells[y1*w+x1] {
-					msg = fmt.Sprintf("Clone(), then Set(%d,%d,%d) on the clone: Get(%d,%d) on the original = %d, want %d", x1, y1, v, x1, y1, got, m.cells[y1*w+x1])
-					return
-				}
-				if g1, g2 := cl.Get(x1, y1), cl.Get(ox, oy); g1 != v || g2 != m.cells[oy*w+ox] {
-					msg = fmt.Sprintf("Clone(), then Set(%d,%d,%d) on the clone: the clone has %d there and %d at (%d,%d), want %d", x1, y1, v, g1, g2, ox, oy, m.cells[oy*w+ox])
-					return
-				}
-				if i&0xffff == 0 { // continue on the clone now and then
-					m.cells[y1*w+x1] = v
-					a = cl
-				}
-			default:
-				if a.Width() != w || a.Height() != h {
-					msg = fmt.Sprintf("Width,Height = %d,%d", a.Width(), a.Height())
-					return
-				}
+		for lo := 0; lo < total; lo += blk {
+			hi := lo + blk
+			if hi > total {
+				hi = total
 			}
-			if got := a.Get(ox, oy); got != m.cells[oy*w+ox] {
-				msg = fmt.Sprintf("%s: cell (%d,%d), which the call does not concern, = %d, want %d", opName[k], ox, oy, got, m.cells[oy*w+ox])
+			if bad, msg = wrapBlock(k, a, cells, w, h, x1, x2, y1, lo, hi, special[lo/blk]); bad >= 0 {
 				return
 			}
-			// the whole grid now and then, and at every call around 2^16, 2^31, 2^32 and the end
-			if i&0x3fffff == 0 || i >= total-2048 || (i >= 1<<32-1024 && i < 1<<32+1024) || (i >= 1<<31-64 && i < 1<<31+64) || (i >= 1<<16-64 && i < 1<<16+64) {
-				if msg = diff(a, m, d); msg != "" {
-					return
-				}
-			}
+			done = hi
 		}
 	})
-	out.Evals = i
+	out.Evals = done
 	if p != nil {
-		return pbt.Fail("%dx%d int array, %s with all coordinates inside the bounds, repetition %d: panicked: %v", w, h, opName[k], i, p)
+		return pbt.Fail("%dx%d int array, %s with all coordinates inside the bounds, repeated: panicked after repetition %d: %v", w, h, opName[k], done, p)
 	}
-	if msg != "" {
-		return pbt.Fail("%dx%d int array, %s repeated, repetition %d: %s", w, h, opName[k], i, msg)
+	if bad >= 0 {
+		return pbt.Fail("%dx%d int array, %s repeated, repetition %d: %s", w, h, opName[k], bad, msg)
 	}
 	out.NonTrivial = w != h && total > 1<<32
 	return out
@@ -261,13 +253,12 @@ func init() { runners[wrapT] = runWrap32 }
 
 var specWrap32 = pbt.Register(&pbt.Spec[Case]{
 	Property: "C08", Name: "C08.wrap32",
-	Rule: "thorough only, enumerated: ONE cheap call repeated 2^32 + 4096 times on one 3x2 int array, one case per call: Set, Get, Fill (2x2 rectangle, corners exchanged), Row, RowSpan (each written " +
-		"through), Clone (the clone is written, the original must not change; the history continues on a clone every 2^16 calls), Width+Height. After every call the cell written and a cell the " +
-		"call does not concern are read with Get; the whole grid is compared with the model every 2^22 calls and after every call in the windows around 2^16, 2^31, 2^32 and the end. " +
+	Rule: "thorough only, enumerated: ONE cheap call repeated 2^32 + 4096 times on one 3x2 int array, one case per call: Set, Get (the cell is changed every 4096 calls), Fill (one cell), Row and " +
+		"RowSpan (each written through), Width+Height. After every call the cell written is read with Get; the whole grid is compared with the model every 2^16 calls, and after EVERY call " +
+		"in the blocks of 2^16 calls around 2^16, 2^31, 2^32 and the end. Clone and String are not repeated 2^32 times (a call costs 0.1 .. 1 microsecond: 7 .. 70 minutes); they are in C08.many (2^18). " +
 		"non-trivial = the full 2^32 + 4096 calls were made",
 	Enum: func(shard, shards int, tier string, yield func(Case) bool) {
-		ops := []Op{{K: OpSet, X1: 2, Y1: 1}, {K: OpGet, X1: 2, Y1: 1}, {K: OpFill, X1: 0, Y1: 0, X2: 1, Y2: 1}, {K: OpRow, Y1: 1}, {K: OpRowSpan, X1: 1, X2: 2, Y1: 1},
-			{K: OpClone, X1: 2, Y1: 1}, {K: OpDims}}
+		ops := []Op{{K: OpSet, X1: 2, X2: 2, Y1: 1}, {K: OpGet, X1: 2, X2: 2, Y1: 1}, {K: OpFill, X1: 1, X2: 1, Y1: 1}, {K: OpRow, X1: 1, X2: 1, Y1: 1}, {K: OpRowSpan, X1: 1, X2: 2, Y1: 1}, {K: OpDims}}
 		for i, o := range ops {
 			if i%shards != shard {
 				continue
